@@ -182,7 +182,7 @@ def enumLib (s : ConnSettings) (e : Existence) : List Matrix :=
 /-- `_count_matrices_special` + fallback, as used by `count_matrices`. -/
 def countSpecial (r c : List Nat) (mx : Matrix) : Option Nat :=
   if r.sum = 0 || c.sum = 0 then some 1
-  else if r == [1] then some (c.filter (0 < ·)).length
+  else if r == [1] then some ((c.zip (mx.getD 0 [])).filter (fun p => decide (0 < p.1) && decide (0 < p.2))).length
   else
     match (List.range r.length).find? (fun i => r.getD i 0 == c.sum) with
     | some i => some (if (c.zip (mx.getD i [])).all (fun p => decide (p.1 ≤ p.2)) then 1 else 0)
